@@ -555,6 +555,42 @@ def free_running_obs(task):
 
 
 # ------------------------------------------------------------------ the check
+def apalache_part(rep, tier):
+    """unbounded safety of the ownership discipline: spec/apalache/PurityInd.tla (Purity.tla flattened and annotated) - Init => IndInv,
+    IndInv /\\ Next => IndInv' and IndInv /\\ Next => StepSafe (library object and handed-out symbols never written, writes only to
+    objects the stepping thread owns), with the shared-scratch deviation as negative control"""
+    import shutil
+    import tempfile
+    import time
+    runs = [('base', ['--init=Init', '--inv=IndInv', '--length=0'], 'NoError'),
+            ('negative control (Dev_SharedScratch)', ['--init=IndInit', '--next=NextDev', '--inv=IndInv', '--length=1'], 'Error')]
+    if tier == 'thorough':
+        runs += [('inductive step', ['--init=IndInit', '--inv=IndInv', '--length=1'], 'NoError'),
+                 ('invariant implies the action properties', ['--init=IndInit', '--inv=StepSafe', '--length=1'], 'NoError'),
+                 ('negative control of the action properties', ['--init=IndInit', '--next=NextDev', '--inv=StepSafe', '--length=1'], 'Error')]
+    res = []
+    for name, args, want in runs:
+        out_dir = tempfile.mkdtemp(prefix='apalache_', dir=common.workdir('C15'))
+        t0 = time.time()
+        try:
+            p = subprocess.run(['apalache-mc', 'check'] + args + ['--out-dir=' + out_dir, 'PurityInd.tla'], cwd=os.path.join(common.SPEC, 'apalache'),
+                               capture_output=True, timeout=3000)
+        except subprocess.TimeoutExpired:
+            raise common.MachineryError(f'Apalache timed out on {name}')
+        finally:
+            shutil.rmtree(out_dir, ignore_errors=True)
+        out = p.stdout.decode('utf-8', 'replace')
+        got = 'NoError' if 'The outcome is: NoError' in out else ('Error' if 'The outcome is: Error' in out else 'other')
+        res.append({'run': name, 'args': ' '.join(args), 'outcome': got, 'wall_s': round(time.time() - t0, 1)})
+        if got == 'other':
+            raise common.MachineryError(f'Apalache: {name}: unexpected outcome\n' + out[-1500:])
+        if got != want:
+            if want == 'Error':
+                raise common.MachineryError(f'Apalache negative control did not fail: {name}')
+            raise common.MachineryError(f'Apalache: the inductive argument does not go through ({name}); this is a defect of the specification, not of segno\n' + out[-1500:])
+    rep.notes['apalache_inductive_invariant'] = res
+
+
 def AFTER(nm):
     """calls made after the threads of a schedule have finished: both calls again, and a larger, sparsely filled symbol"""
     return list(nm) + ['sparse_v22']
@@ -575,6 +611,7 @@ def run_c15(rep, tier):
     rep.add_design('Purity', 'Purity_sched.cfg', out, st, 'all schedules of two concurrent calls with at most 2 context switches (export)')
     schedules = common.parse_vectors(out)
     rep.notes['schedules_exported_by_tlc'] = len(schedules)
+    apalache_part(rep, tier)
     # (b) references in fresh interpreters
     A = alphabet(seed_)
     with ThreadPoolExecutor(max_workers=common.NCPU) as ex:
